@@ -1,6 +1,6 @@
 (* C07 — Chunk store round trip and chunk addressing.  Only statements here. *)
 From Coq Require Import ZArith List Bool.
-From KV Require Import Base.Sx Gen.Generated Model.Chunks Proofs.ChunksP Proofs.ChunksRtP Proofs.ChunksPruneP Proofs.ChunksTopP.
+From KV Require Import Base.Sx Gen.Generated Model.Chunks Proofs.ChunksP Proofs.ChunksRtP Proofs.ChunksPruneP Proofs.ChunksPrunedReadP Proofs.ChunksTopP Proofs.ChunksGenP.
 Import ListNotations.
 Open Scope Z_scope.
 
@@ -122,6 +122,25 @@ Theorem C07_pruned_requests_partial : forall chunks index,
 Proof. exact pruned_requests. Qed.
 Print Assumptions C07_pruned_requests_partial.
 
+(* The pruned read as a whole, for every element type, store content, chunking (positive sizes) and index with
+   non-empty normalised slices (None / negative bounds allowed, fewer slices than dimensions allowed):
+   the requested chunks are exactly the overlapping blocks of the stored chunking, and the data returned are
+   the selected elements array[index] in C order. *)
+Theorem C07_pruned_read_partial : forall (A : Type) (d : A) (miss : option A) (st : store A) (arr : str) (dt : Z)
+    (f : list Z -> A) (chunks : list (list Z)) (index : list (option Z * option Z)),
+  Forall (fun cs => Forall (fun c => 0 < c) cs) chunks ->
+  Forall (fun se => fst se < snd se) (norm_index (chunks_shape chunks) index) ->
+  get_array_index d miss (fst (put_array st arr dt f chunks [])) arr dt chunks index
+    = (spec_requested chunks index, Ok (map f (spec_index_points chunks index))).
+Proof. exact pruned_read_top. Qed.
+Print Assumptions C07_pruned_read_partial.
+
+Example C07_pruned_read_example :
+  let st := fst (put_array [] [120] 7 (fun p => 10 * nth 0 p 0 + nth 1 p 0) [[2;2;2];[1;1]] []) in
+  get_array_index (-1) None st [120] 7 [[2;2;2];[1;1]] [(Some 1, Some (-1)); (Some 1, None)]
+  = ([[(0,2);(1,2)]; [(2,4);(1,2)]; [(4,6);(1,2)]], Ok [11; 21; 31; 41]).
+Proof. vm_compute. reflexivity. Qed.
+
 (* one axis: pruning only drops whole chunks and shifts the slice by the dropped amount *)
 Theorem C07_prune_axis_keeps_boundaries : forall cs s e,
   Forall (fun c => 0 < c) cs -> 0 <= s -> s < e -> e <= sumZ cs ->
@@ -139,4 +158,56 @@ Example C07_pruned_read_empty_refuted :
   get_array_index (-1) None st [120] 7 [[2;2;2]] [(Some 2, Some 2)] = ([[(2, 2)]], Err EBadChunk)
   /\ spec_requested [[2;2;2]] [(Some 2, Some 2)] = []
   /\ spec_index_points [[2;2;2]] [(Some 2, Some 2)] = [].
+Proof. vm_compute. auto. Qed.
+
+(* ---- generate_chunks ---- *)
+(* Domain (gc_domain): every shape entry > 0, max_chunk_size / itemsize = mn / md > 0, dims_to_split in range
+   (any order, repetitions allowed), max_dim_elements values > 0.  All five clauses hold for ALL such inputs. *)
+
+(* the per-axis chunk sizes are positive and sum to the shape: the scheme tiles the array exactly *)
+Theorem C07_generate_chunks_tiles : forall shape mn md dims pow2 mde,
+  gc_domain shape mn md dims mde = true ->
+  tiles_ok shape (generate_chunks shape mn md dims pow2 mde) = true.
+Proof. exact gc_tiles. Qed.
+Print Assumptions C07_generate_chunks_tiles.
+
+(* every chunk along a splittable dimension i with max_dim_elements[i] = m has at most m elements *)
+Theorem C07_generate_chunks_dim_caps : forall shape mn md dims pow2 mde,
+  gc_domain shape mn md dims mde = true ->
+  caps_ok dims mde (generate_chunks shape mn md dims pow2 mde) = true.
+Proof. exact gc_caps. Qed.
+Print Assumptions C07_generate_chunks_dim_caps.
+
+(* power_of_two: all but the last chunk on every axis are powers of two *)
+Theorem C07_generate_chunks_pow2 : forall shape mn md dims pow2 mde,
+  gc_domain shape mn md dims mde = true ->
+  pow2_ok pow2 (generate_chunks shape mn md dims pow2 mde) = true.
+Proof. exact gc_pow2. Qed.
+Print Assumptions C07_generate_chunks_pow2.
+
+(* size budget: the largest block has at most max_chunk_size / itemsize elements, OR every splittable dimension
+   already has chunk size 1.  (The breach the source comment near chunkstore.py:135 warns about does not exist:
+   ceil in `pieces` followed by floor in `trg_elements` never exceeds the target.) *)
+Theorem C07_generate_chunks_budget : forall shape mn md dims pow2 mde,
+  gc_domain shape mn md dims mde = true ->
+  budget_ok mn md dims (generate_chunks shape mn md dims pow2 mde) = true.
+Proof. exact gc_budget. Qed.
+Print Assumptions C07_generate_chunks_budget.
+
+(* dimensions not in dims_to_split are never split *)
+Theorem C07_generate_chunks_unsplit : forall shape mn md dims pow2 mde,
+  gc_domain shape mn md dims mde = true ->
+  unsplit_ok dims (generate_chunks shape mn md dims pow2 mde) = true.
+Proof. exact gc_unsplit. Qed.
+Print Assumptions C07_generate_chunks_unsplit.
+
+(* non-vacuity: the cases of katdal's own test suite (shape (10, 8192, 144), complex64, 3e6 and 1e6 bytes,
+   and power_of_two with max_dim_elements) are in the domain and give the documented results *)
+Example C07_generate_chunks_examples :
+  gc_domain [10; 8192; 144] 3000000 8 [0%nat; 1%nat; 2%nat] [] = true
+  /\ generate_chunks [10; 8192; 144] 3000000 8 [0%nat; 1%nat; 2%nat] false []
+     = [repeat 1 10; repeat 2048 4; [144]]
+  /\ generate_chunks [10; 8192; 144] 1000000 8 [0%nat; 1%nat; 2%nat] false []
+     = [repeat 1 10; repeat 819 10 ++ [2]; [144]]
+  /\ generate_chunks [10; 7] 13 2 [0%nat; 1%nat] true [(0%nat, 5)] = [repeat 1 10; [4; 3]].
 Proof. vm_compute. auto. Qed.
